@@ -112,8 +112,11 @@ class TagValue:
             spread_token_offset = len(spread_token) if spread_token else 0
             serialized = serialized[spread_token_offset:]
 
-        # Allow to use dynamic expressions as args, e.g. `"{{ }}"` inside of strings
-        if is_dynamic_expression(serialized):
+        # Allow to use dynamic expressions as args, e.g. `"{{ }}"` inside of strings.
+        # NOTE: Only a value that is a single quoted string is a nested template. A quoted string followed by
+        #       filters (e.g. `"{{ a }}"|default:"x"`) is a regular filter expression - otherwise the text between
+        #       the first and the last quote, filters included, would be rendered as the template.
+        if len(self.parts) == 1 and is_dynamic_expression(serialized):
             self.compiled = DynamicFilterExpression(parser, serialized)
         else:
             self.compiled = FilterExpression(serialized, parser)
